@@ -72,7 +72,16 @@ pub fn op_ref(n: usize, msg: &[u8]) -> String {
         let (pk, sk) = r::keypair();
         (pk.as_bytes().to_vec(), r::detached_sign(msg, &sk).as_bytes().to_vec())
     };
-    let ok = our_verify(n, &reframe_from_ref(&sig, n), msg, &pk);
+    // first against another message of the same length (must be rejected), then against the signed one, on this thread
+    let mut other = msg.to_vec();
+    if let Some(b) = other.last_mut() {
+        *b ^= 1;
+    } else {
+        other.push(0);
+    }
+    let framed = reframe_from_ref(&sig, n);
+    let wrong = our_verify(n, &framed, &other, &pk);
+    let ok = our_verify(n, &framed, msg, &pk) && !wrong;
     format!("{} {} {}", ok, hex(&pk), hex(&sig))
 }
 
@@ -144,7 +153,8 @@ pub fn generate(tier: &str, rng: &mut Prng) -> Vec<Case> {
             let mut found = 0;
             let mut tries = 0u64;
             let want = if thorough { 12 } else { 4 };
-            while found < want && tries < 200_000 {
+            let tries_max = if n == 512 { 200_000 } else { 60_000 };
+            while found < want && tries < tries_max {
                 tries += 1;
                 let rs = rng.next() >> 1;
                 let msg = format!("threshold {tries}").into_bytes();
@@ -154,7 +164,9 @@ pub fn generate(tier: &str, rng: &mut Prng) -> Vec<Case> {
                 m.extend_from_slice(&msg);
                 let (_, seen) = crate::c14::reference(&m, n);
                 let target = if found % 2 == 0 { 61445 } else { 61444 };
-                if seen.iter().any(|&t| t == target) {
+                // every fourth hit instead: a stream that needs unusually many words (a buffered hash that has to fetch more)
+                let long = found % 4 == 3 && seen.len() >= n + n / 10 + 2;
+                if long || (found % 4 != 3 && seen.iter().any(|&t| t == target)) {
                     ops.push(Case::new(format!("interop_ours {n} {} {} {rs}", hex(&ks), hex(&msg))));
                     found += 1;
                 }
